@@ -69,6 +69,8 @@ func instancesFor(prop, tier string) []*Instance {
 		c05Instances(add, thorough)
 	case "C06":
 		c06Instances(add, thorough)
+	case "C10":
+		c10Instances(add, thorough)
 	case "C03":
 		c03Instances(add, thorough)
 	case "C15":
@@ -590,5 +592,49 @@ func c06Instances(add func(*Instance), thorough bool) {
 				}
 			}
 		}
+	}
+}
+
+func c10Instances(add func(*Instance), thorough bool) {
+	// 1. arbitrary byte strings of every length up to the bound, every entry point
+	maxL, tail := 12, []int{14, 16}
+	if thorough {
+		maxL, tail = 16, []int{18, 20, 22, 24}
+	}
+	for rd := 0; rd <= 5; rd++ {
+		for L := 0; L <= maxL; L++ {
+			add(&Instance{Func: "VerifC10Decode", Params: P("L", L, "rd", rd), CheckAlloc: true})
+		}
+		for _, L := range tail {
+			add(&Instance{Func: "VerifC10Decode", Params: P("L", L, "rd", rd), CheckAlloc: true})
+		}
+	}
+	// 2. proper prefixes of valid streams
+	for _, b := range serialShapes(thorough) {
+		if b.p["ak"] == 0 || b.p["ac0"] == 100 || b.p["ac1"] == 100 {
+			continue
+		}
+		for rd := 0; rd <= 3; rd++ {
+			add(&Instance{Func: "VerifC10Prefix", Tier: b.tier, Params: with(b.p, "L", 7, "eff", 1, "acow", 0, "rd", rd)})
+		}
+	}
+	for _, pb := range []int{0, 8160, 8195} {
+		for rd := 0; rd <= 2; rd += 2 {
+			add(&Instance{Func: "VerifC10Prefix", Params: P("ak", 2, "akeys", 4, "ac0", 100, "ac1", 1, "L", 7, "eff", 1, "rd", rd, "pb", pb, "pw", 40)})
+		}
+	}
+	// 3. V => I on unconstrained representations
+	for n := 1; n <= 4; n++ {
+		add(&Instance{Func: "VerifC10ValidateSound", Params: P("k", kA, "n", n)})
+	}
+	for n := 1; n <= 3; n++ {
+		add(&Instance{Func: "VerifC10ValidateSound", Params: P("k", kR, "n", n)})
+	}
+	for _, pat := range []int{0, 1, 3, 5} {
+		add(&Instance{Func: "VerifC10ValidateSound", Params: P("k", kB, "pat", pat)})
+	}
+	// 4. MustReadFrom
+	for _, L := range []int{0, 4, 8, 12, 16, 20} {
+		add(&Instance{Func: "VerifC10Must", Params: P("L", L)})
 	}
 }
